@@ -24,7 +24,7 @@ MAX_SAMPLES = 12
 
 class Res:
     """Result of checking one case."""
-    __slots__ = ("disc", "nontrivial", "classes", "known", "skipped", "key")
+    __slots__ = ("disc", "nontrivial", "classes", "known", "skipped", "key", "evals", "skips")
 
     def __init__(self):
         self.disc = []          # [(bucket, detail)]  -- unexplained deviations = violations
@@ -33,6 +33,8 @@ class Res:
         self.known = []         # ids of known findings that explained a deviation in this case
         self.skipped = None     # reason string when the case was excluded (counted)
         self.key = None         # canonical string for distinctness (default: the case json)
+        self.evals = 1          # library evaluations judged against the oracle in this case
+        self.skips = []         # reasons of excluded sub-cases (counted)
 
     def bad(self, bucket, detail=None):
         self.disc.append((bucket, detail))
@@ -52,8 +54,11 @@ class Stats:
 
     def add(self, case, res):
         self.evaluations += 1
+        self.extra["oracle_comparisons"] += res.evals
         if res.skipped:
             self.skipped[res.skipped] += 1
+        for r in res.skips:
+            self.skipped[r] += 1
         for c in res.classes:
             self.classes[c] += 1
         for k in res.known:
@@ -134,70 +139,123 @@ def exhaustive_worker(args):
     return stats
 
 
-class _Failure(Exception):
-    pass
-
-
 def hypothesis_worker(args):
+    """One Hypothesis shard.  The test body never raises on a discrepancy: it records the smallest
+    failing case per bucket and keeps generating, so one pass collects every root cause it meets and
+    Hypothesis' own shrinker (5-minute cap, flaky on order-dependent defects) is replaced by the
+    bounded reducer below."""
     pid, tier, seed, shard, n_examples, deadline_ts, stream = args
     import hypothesis
     from hypothesis import given, settings, strategies as st, HealthCheck, Phase
-    from pv.chooser import HChooser
+    from pv.chooser import HChooser, RChooser
     prop = load_prop(pid)
     stats = Stats()
-    muted = set()
-    last = [None]
     state = {"stop": False}
-    phases = [Phase.generate, Phase.shrink]
+    direct = getattr(prop, "HYPOTHESIS_DIRECT", False)
+    seed_strategy = st.integers(0, 2 ** 62)
+
+    def make_chooser(data):
+        # Default: Hypothesis draws one 62-bit value per case and a deterministic expander turns it
+        # into the structured case (uniform choices; see DESIGN 2 "why a seed expander").  Properties
+        # with small cases set HYPOTHESIS_DIRECT and draw every choice from Hypothesis.
+        if direct:
+            return HChooser(data.draw)
+        return RChooser(data.draw(seed_strategy))
     gen = getattr(prop, f"gen_{stream}") if stream else prop.gen
 
     def body(data):
-        if state["stop"] or stats.harness_error:
-            return
         if deadline_ts and time.time() > deadline_ts:
             state["stop"] = True
+        if state["stop"]:
             stats.extra["budget_stop"] += 1
+            data.draw(st.just(0))
             return
         try:
-            case = gen(HChooser(data.draw), tier)
+            case = gen(make_chooser(data), tier)
             res = _check(prop, case, stats)
-        except hypothesis.errors.HypothesisException:
-            raise
         except BaseException as e:  # harness bug: stop the shard, report exit 2
-            if isinstance(e, (KeyboardInterrupt, SystemExit)):
-                raise
-            if type(e).__module__.startswith("hypothesis"):
+            if isinstance(e, (KeyboardInterrupt, SystemExit)) or type(e).__module__.startswith("hypothesis"):
                 raise
             stats.harness_error = traceback.format_exc()
-            return
-        bad = [(b, d) for b, d in res.disc if b not in muted]
-        if bad:
-            last[0] = (case, bad)
-            raise _Failure(bad[0][0])
+            raise _Abort()
+        for bucket, detail in res.disc:
+            cur = stats.found.get(bucket)
+            if cur is None or _size(case) < _size(cur["case"]):
+                stats.found[bucket] = {"case": case, "detail": detail}
 
-    for rnd in range(MAX_ROUNDS):
-        test = given(st.data())(body)
-        test = hypothesis.seed(shard_seed(seed, pid + (stream or ""), shard) + rnd)(test)
-        test = settings(max_examples=n_examples, database=None, deadline=None, derandomize=False,
-                        report_multiple_bugs=False, suppress_health_check=list(HealthCheck),
-                        phases=phases, print_blob=False)(test)
-        try:
-            test()
-            break
-        except _Failure:
-            case, bad = last[0]
-            # the last failing execution is Hypothesis' minimal example
-            for bucket, detail in bad:
-                stats.found.setdefault(bucket, {"case": case, "detail": detail})
-                muted.add(bucket)
-        except Exception:
+    test = given(st.data())(body)
+    test = hypothesis.seed(shard_seed(seed, pid + (stream or ""), shard))(test)
+    test = settings(max_examples=n_examples, database=None, deadline=None, derandomize=False,
+                    report_multiple_bugs=False, suppress_health_check=list(HealthCheck),
+                    phases=[Phase.generate], print_blob=False)(test)
+    try:
+        test()
+    except Exception:
+        if not stats.harness_error:
             stats.harness_error = traceback.format_exc()
-            break
-        if stats.harness_error or state["stop"]:
-            break
     from pv import lib
     lib.cleanup_tmp()
     return stats
+
+
+class _Abort(Exception):
+    pass
+
+
+# ---- bounded reducer (ddmin-style on the JSON case) ---------------------------------------------
+
+def _variants(x):
+    """Smaller variants of a JSON value: delete one list element, or hoist a child list."""
+    if isinstance(x, dict):
+        for k, v in x.items():
+            for nv in _variants(v):
+                y = dict(x)
+                y[k] = nv
+                yield y
+    elif isinstance(x, list):
+        order = sorted(range(len(x)), key=lambda i: -_size(x[i]))
+        for i in order:
+            yield x[:i] + x[i + 1:]
+        for i in order:
+            if isinstance(x[i], list) and x[i] and isinstance(x[i][0], str) and x and isinstance(x[0], str):
+                yield x[i]
+        for i in order:
+            for nv in _variants(x[i]):
+                yield x[:i] + [nv] + x[i + 1:]
+
+
+def reduce_worker(args):
+    pid, bucket, case, budget, active = args
+    _init_worker(active)
+    prop = load_prop(pid)
+    t_end = time.time() + budget
+
+    def fails(c):
+        try:
+            r = prop.check_case(c)
+        except Exception:
+            return None
+        for b, d in r.disc:
+            if b == bucket:
+                return d
+        return None
+
+    cur, detail = case, fails(case)
+    if detail is None:
+        return bucket, case, None, False   # not reproducible (order/address dependent)
+    improved = True
+    while improved and time.time() < t_end:
+        improved = False
+        for cand in _variants(cur):
+            if time.time() > t_end:
+                break
+            d = fails(cand)
+            if d is not None:
+                cur, detail, improved = cand, d, True
+                break
+    from pv import lib
+    lib.cleanup_tmp()
+    return bucket, cur, detail, True
 
 
 # ---------------------------------------------------------------------------------------------
@@ -283,8 +341,17 @@ def main(argv):
             if r is not None:
                 for s in r.get():
                     total.merge(s)
-    if total.extra.get("budget_stop"):
-        exhaustive_complete = exhaustive_complete  # exhaustive chunks never stop early
+        # shrink each bucket's smallest case with the bounded reducer (time-boxed)
+        if total.found:
+            per = 20 if tier == "quick" else 90
+            jobs_r = [(pid, b, v["case"], per, sorted(active)) for b, v in total.found.items() if "corpus" not in v]
+            for bucket, case, detail, repro in pool.map(reduce_worker, jobs_r, chunksize=1):
+                if repro:
+                    total.found[bucket]["case"] = case
+                    total.found[bucket]["detail"] = detail
+                else:
+                    total.found[bucket]["detail"] = {"note": "not reproducible in a second run of the same case "
+                                                     "(result depends on hash/address order)", "first": total.found[bucket]["detail"]}
     if total.harness_error:
         print("HARNESS ERROR:\n" + total.harness_error)
         return 2
